@@ -325,9 +325,11 @@ def ob_split(split, dim, aniso, seed):
         sig = f"split:{split}:{dim}d:{label}"
         with np.errstate(all="ignore"):
             try:
-                cP, cM = pf.Calc_C(eps.copy())
-                sP, sM = pf.Calc_Sigma_e_pg(eps.copy())
-                pP, pM = pf.Calc_psi_e_pg(eps.copy())
+                from EasyFEA.FEM._linalg import FeArray
+                fe = lambda: FeArray.asfearray(eps.copy())     # requires: strain field is a FeArray (as every call site passes)
+                cP, cM = pf.Calc_C(fe())
+                sP, sM = pf.Calc_Sigma_e_pg(fe())
+                pP, pM = pf.Calc_psi_e_pg(fe())
             except Exception as ex:
                 raise Refuted(f"{split} {dim}-D on {label}: raises {type(ex).__name__}: {ex}", cex=dict(state=label, eps=eps.tolist()), signature=sig + ":raises",
                               replay=dict(confirmed=True))
@@ -363,7 +365,8 @@ def ob_eig_native(dim, seed):
     for label, eps, mats in _fields(dim, seed):
         with np.errstate(all="ignore"):
             try:
-                vals, list_m, list_M = pf._Eigen_values_vectors_projectors(eps.copy())
+                from EasyFEA.FEM._linalg import FeArray
+                vals, list_m, list_M = pf._Eigen_values_vectors_projectors(FeArray.asfearray(eps.copy()))
             except Exception as ex:
                 raise Refuted(f"eigen {dim}-D on {label}: raises {type(ex).__name__}: {ex}", signature=f"eig{dim}d:{label}:raises", cex=dict(state=label), replay=dict(confirmed=True))
         vals = np.asarray(vals, dtype=float)
@@ -378,12 +381,12 @@ def ob_eig_native(dim, seed):
                     raise Refuted(f"eigen {dim}-D on {label}: non-finite eigenvalues/projectors at element {e} point {p}", cex=dict(state=label, matrix=A.tolist()),
                                   signature=sig + ":finite", replay=dict(confirmed=True))
                 scale = max(np.abs(w).max(), 1e-30)
-                if np.abs(np.sort(vals[e, p]) - w).max() > 1e-9 * max(scale, 1e-12) and np.abs(w).max() > 0:
+                if np.abs(np.sort(vals[e, p]) - w).max() > 1e-6 * max(scale, 1e-12) and np.abs(w).max() > 0:
                     raise Refuted(f"eigen {dim}-D on {label}: eigenvalues {vals[e,p]} differ from numpy eigh {w} at element {e} point {p}",
                                   cex=dict(state=label, matrix=A.tolist()), signature=sig + ":values", replay=dict(confirmed=True, code=vals[e, p].tolist(), eigh=w.tolist()))
                 S = sum(M[e, p] for M in Ms)
                 R = sum(vals[e, p, i] * Ms[i][e, p] for i in range(dim))
-                if np.abs(S - np.eye(dim)).max() > 1e-9 or np.abs(R - A).max() > 1e-9 * max(scale, 1e-12) + 1e-15:
+                if np.abs(S - np.eye(dim)).max() > 1e-9 or np.abs(R - A).max() > 1e-6 * max(scale, 1e-12) + 1e-15:
                     raise Refuted(f"eigen {dim}-D on {label}: projectors do not resolve the identity / reconstruct the tensor at element {e} point {p}",
                                   cex=dict(state=label, matrix=A.tolist()), signature=sig + ":projectors",
                                   replay=dict(confirmed=True, sum_err=float(np.abs(S - np.eye(dim)).max()), recon_err=float(np.abs(R - A).max())))
